@@ -29,6 +29,7 @@ func vPipe() (*vPipeEnd, *vPipeEnd) {
 	a := &vPipeEnd{in: ba, out: ab}
 	b := &vPipeEnd{in: ab, out: ba}
 	a.peer, b.peer = b, a
+	vPipes = append(vPipes, a, b)
 	return a, b
 }
 
@@ -112,6 +113,9 @@ func vServe(r *Raft) (*server, dialFn) {
 // ---- building the two nodes ----
 
 const vDirF = "/ghostF"
+
+var vDebugCluster = false
+var vPipes []*vPipeEnd
 
 func vClusterConfig() Config {
 	return Config{Nodes: map[uint64]Node{
@@ -230,6 +234,13 @@ func VH_C04_cluster2_catchup() {
 		switch step {
 		case 0:
 			vReach("caught-up")
+			if vIsEngine() && vDebugCluster {
+				rp := L.ldr.repls[2]
+				print("DBG L.state=", int(L.state), " L.term=", L.term, " L.last=", L.lastLogIndex, " L.commit=", L.commitIndex, " match=", rp.status.matchIndex, " rmatch=", rp.matchIndex, " next=", rp.nextIndex, " noContact=", !rp.status.noContact.IsZero(), " F.last=", F.lastLogIndex, " F.term=", F.term, " F.commit=", F.commitIndex, " upd=", len(L.ldr.replUpdateCh), "\n")
+				for i, pe := range vPipes {
+					print("  pipe", i, " inq=", len(pe.in), " buf=", len(pe.buf), " closed=", pe.closed, " written=", pe.delivered, "\n")
+				}
+			}
 			vAssert(L.state == Leader && L.term == 4 && L.lastLogIndex == 4, "K-leader-appended-its-no-op")
 			vAssert(L.ldr.repls[2].status.matchIndex == 4, "K-follower-match-index-reaches-leaders-last-index")
 			vAssert(F.term == 4 && F.leader == 1 && F.state == Follower, "K-follower-follows-the-leader")
@@ -318,7 +329,12 @@ func (c *vCluster) closeAll() {
 }
 
 //verif:check C01,C02,C05,C17 sched=coop maxsteps=600000 onunwind=violation stubs=rt,timers,valuefile,abslog onblock=violation reach=one-candidate,two-candidates,leader-elected,no-leader,closed,end desc="three real nodes end to end through an election: one or two followers time out at the same moment, become candidates (real startElection, vote requests over real connections, real vote handlers, durable votes), and at the next quiescent point: at most one leader exists in the new term, every node voted at most once in it (durably), a leader was granted by a majority and holds every entry of the newest term that a majority held before the election, the others follow it and their logs equal its log incl. its committed no-op; a sole candidate whose log is at least as up to date as another node's is elected" bounds="3 voters; each log is the 2-entry common prefix, that plus one entry of a newer term, or that plus two entries of an older term (27 combinations); 1 or 2 simultaneous candidates; round-robin goroutine schedule; no further timer fires"
-func VH_C01_cluster3_election() {
+func VH_C01_cluster3_election() { vClusterElection(false) }
+
+//verif:check C01,C05 tier=thorough sched=coop+1 maxsteps=600000 onunwind=violation stubs=rt,timers,valuefile,abslog onblock=violation reach=two-candidates,leader-elected,closed,end desc="two simultaneous candidates among three real nodes with equal logs, under every goroutine schedule that differs from round robin in at most one hand-over: at most one leader per term, votes durable, leader granted by a majority" bounds="3 voters, equal logs of 3 entries, 2 candidates; schedules within 1 deviation from round robin" maxdec=4000
+func VH_C01_cluster3_election_sched1() { vClusterElection(true) }
+
+func vClusterElection(fixed bool) {
 	cfgE := vClusterConfig().encode()
 	cfgE.index, cfgE.term = 1, 1
 	e2 := &entry{index: 2, term: 1, typ: entryUpdate, data: vBytes("payload2", 1)}
@@ -329,7 +345,11 @@ func VH_C01_cluster3_election() {
 	init := map[uint64][]*entry{}
 	for id := uint64(1); id <= 3; id++ {
 		ents := []*entry{cfgE, e2}
-		switch vChoice(3) {
+		shape := 1
+		if !fixed {
+			shape = vChoice(3)
+		}
+		switch shape {
 		case 1:
 			ents = append(ents, e3) // newer term, shorter
 		case 2:
@@ -359,7 +379,7 @@ func VH_C01_cluster3_election() {
 	}
 	c.wire()
 	c.start(1)
-	two := vChoice(2) == 1
+	two := fixed || vChoice(2) == 1
 	step := 0
 	vSetIdleHook(func() {
 		switch step {
@@ -745,3 +765,6 @@ func VH_C09_cluster2_install() {
 	vAssert(step >= 2, "script-completed")
 	vReach("end")
 }
+
+//verif:check C04,C17 tier=thorough sched=coop+1 maxsteps=400000 onunwind=violation stubs=rt,timers,valuefile,abslog onblock=violation reach=caught-up,client-update-done,closed,end desc="as VH_C04_cluster2_catchup under every goroutine schedule that differs from round robin in at most one hand-over" bounds="as VH_C04_cluster2_catchup; schedules within 1 deviation from round robin" maxdec=4000
+func VH_C04_cluster2_catchup_sched1() { VH_C04_cluster2_catchup() }
